@@ -10,7 +10,7 @@
    sizes, any lies in the headers, archives nested to ANY depth with any fan-out ([entry] is a nested inductive type),
    recursive mode or not.  [wfb] only says that sizes are numbers the zip format can express (0 <= declared < 2^64,
    0 <= stream length, 0 <= depth). *)
-From Coq Require Import List ZArith Bool Lia.
+From Coq Require Import List ZArith Bool Lia String.
 Import ListNotations.
 From GU Require Import C03.Model C03.Concrete C03.Proofs C03.Bridge C03.Gen.
 Local Open Scope Z_scope.
@@ -19,6 +19,17 @@ Local Open Scope Z_scope.
 Theorem generated_is_expected : generated = expected.
 Proof. reflexivity. Qed.
 Print Assumptions generated_is_expected.
+
+(* Every package-level convenience function forwards ALL its parameters (the limits among them) to the same-named method
+   of the global file system, and the limits travel unchanged down to unzip / newZipReader: so what is proved of
+   [unzip_topF generated] (the method UnzipWithContextAndLimits) holds of every entry point that takes limits.  The
+   harness drives each entry point of [ep_entry_points generated] on the OS back end (unknown one: entry-point-not-driven). *)
+Theorem wrappers_forward_everything :
+  forallb snd (ep_wrappers generated) = true
+  /\ ep_entry_points generated = ep_entry_points expected
+  /\ ep_edges generated = ep_edges expected.
+Proof. rewrite generated_is_expected. repeat split; reflexivity. Qed.
+Print Assumptions wrappers_forward_everything.
 
 Lemma unzip_top_generated lim asize rd es : unzip_topF generated lim asize rd es = unzip_top lim asize rd es.
 Proof. rewrite generated_is_expected. apply unzip_topF_expected. Qed.
